@@ -74,6 +74,9 @@ def _vocab(pid, tier, seed, floor_entries, what):
     r = Report(pid, tier, "translation_validation", seed)
     n = check_vocab.run(r, pid, ["K1", "K2"])
     r.floor("vocabulary entries", n, floor_entries)
+    if pid == "C13":
+        ns = check_vocab.storage_conversions(r, "K1") + check_vocab.storage_conversions(r, "K2")
+        r.floor("storage conversions (From / new128 / split128 / Default)", ns, 20)
     r.assumptions = [
         "models of the x86 intrinsics in engine/models.py follow the Intel definitions",
         "rustc MIR construction and trait resolution",
